@@ -10,5 +10,7 @@ for d in "$HERE"/seeded/*/; do
   echo "$id" | grep -Eq "$RE" || continue
   checks="$p"; [ -f "$d/checks.txt" ] && checks="$(cat "$d/checks.txt")"
   echo "== $id -> $checks"
-  "$HERE/tools/evalseed.sh" "$d" "$checks" "$TIER" 2>&1 | grep -E "demo-with|repo-tests|exit="
+  skip=""
+  if [ -f "$d/meta.json" ] && grep -q '"demo_with_change": "fail' "$d/meta.json" && grep -q '"repo_tests_with_change": "pass' "$d/meta.json"; then skip=1; fi
+  SKIP_CONFIRM="${SKIP_CONFIRM:-$skip}" "$HERE/tools/evalseed.sh" "$d" "$checks" "$TIER" 2>&1 | grep -E "demo-with|repo-tests|exit=|MUTANT"
 done
